@@ -329,6 +329,26 @@ def tdvp_coefficients(chk, f, rule="T1"):
                             f"{'-' if forward else '+'}u*dt/2, found du = {got}", {"du": repr(got), "forward": forward})
 
 
+def _numeric_value(e):
+    """value of an arithmetic expression built from numeric literals only (+ - * / ** and unary minus), else None"""
+    import operator as _op
+    ops = {ast.Add: _op.add, ast.Sub: _op.sub, ast.Mult: _op.mul, ast.Div: _op.truediv, ast.Pow: _op.pow}
+    try:
+        if isinstance(e, ast.Constant) and isinstance(e.value, (int, float)) and not isinstance(e.value, bool):
+            return e.value
+        if isinstance(e, ast.UnaryOp) and isinstance(e.op, (ast.USub, ast.UAdd)):
+            v = _numeric_value(e.operand)
+            return None if v is None else (-v if isinstance(e.op, ast.USub) else v)
+        if isinstance(e, ast.BinOp) and type(e.op) in ops:
+            l, r = _numeric_value(e.left), _numeric_value(e.right)
+            if l is None or r is None:
+                return None
+            return ops[type(e.op)](l, r)
+    except (ZeroDivisionError, OverflowError, ValueError):
+        return None
+    return None
+
+
 def tdvp_composition(chk, f):
     """T2/T3 on tdvp_'s stepping loop"""
     fn = f.node
@@ -352,6 +372,11 @@ def tdvp_composition(chk, f):
             if isinstance(st, ast.Assign) and isinstance(st.targets[0], ast.Name) and isinstance(st.value, ast.Constant):
                 env[st.targets[0].id] = Rat(Poly.const(Fraction(st.value.value)))
                 env["__const__" + st.targets[0].id] = st.value.value
+            elif isinstance(st, ast.Assign) and isinstance(st.targets[0], ast.Name) and _numeric_value(st.value) is not None:
+                # a constant written as an arithmetic expression of literals (1 / (4 - 4 ** (1 / 3))): its numerical value is what counts
+                val = _numeric_value(st.value)
+                env[st.targets[0].id] = Rat(Poly.const(Fraction(val)))
+                env["__const__" + st.targets[0].id] = val
             for n in ast.walk(st):
                 if isinstance(n, ast.Call) and isinstance(n.func, ast.Name) and n.func.id == "routine":
                     calls.append(n)
@@ -647,3 +672,51 @@ def check_krylov_combination(chk, rule, f, min_sites=1):
                         ok = True
         chk.verdict(rule, (f, n), n, True if ok else False,
                     f"{f.short}: the first Krylov vector `{A.short(n, 50)}` is not the start vector divided by its own norm")
+
+
+def check_local_generators(chk, rule, prog, module, solver_names=("expmv", "eigs")):
+    """The local generators handed to the Krylov solvers (`f = lambda x: env.HeffK(x, ..) - E0 * x`) are *linear and homogeneous* in
+    their argument: every additive term of the lambda / nested def contains the argument.  A term without it (`- E0 * AA` with the
+    fixed start tensor) makes the map affine: exp(t f) of an affine map is not the shifted evolution, the state picks up more than a
+    phase."""
+    n = 0
+    for f in prog.all_funcs({module}):
+        fn = f.node
+        b = A.local_bindings(fn)
+        for c in A.calls(fn):
+            if (A.call_name(c) or "").split(".")[-1] not in solver_names or not c.args:
+                continue
+            g = c.args[0]
+            cands = []
+            if isinstance(g, ast.Lambda):
+                cands = [g]
+            elif isinstance(g, ast.Name):
+                cands = [v for st, v, k in b.get(g.id, []) if isinstance(v, ast.Lambda)]
+                cands += [d for d in ast.walk(fn) if isinstance(d, ast.FunctionDef) and d.name == g.id and d is not fn]
+            for lam in cands:
+                if isinstance(lam, ast.Lambda):
+                    if len(lam.args.args) != 1:
+                        continue
+                    x, bodies = lam.args.args[0].arg, [lam.body]
+                else:
+                    if len(lam.args.args) != 1:
+                        continue
+                    x = lam.args.args[0].arg
+                    bodies = [r.value for r in ast.walk(lam) if isinstance(r, ast.Return) and r.value is not None]
+                for body in bodies:
+                    terms = []
+
+                    def flat(e):
+                        if isinstance(e, ast.BinOp) and isinstance(e.op, (ast.Add, ast.Sub)):
+                            flat(e.left)
+                            flat(e.right)
+                        else:
+                            terms.append(e)
+                    flat(body)
+                    n += 1
+                    const = [t for t in terms if not any(isinstance(y, ast.Name) and y.id == x for y in ast.walk(t))]
+                    chk.verdict(rule, (f, lam), f"{f.short}: generator `{A.short(lam, 70)}` is homogeneous in `{x}`", False if const else True,
+                                f"{f.short}(): the map handed to {A.call_name(c)} has the term `{A.short(const[0], 40) if const else ''}` that does not contain its "
+                                f"argument `{x}`: the map is affine, not linear -- e.g. an energy shift applied to the fixed start tensor instead of the "
+                                f"Krylov vector; the evolved state is wrong by more than a phase (only with the non-default option that selects this branch)")
+    return n
